@@ -125,6 +125,15 @@ func dischargeOne(w *World, i int, o *Obligation, opt dischargeOpts) {
 	answered := 0
 	for si, s := range solvers {
 		t := opt.timeoutS
+		if isCover {
+			// a cover only has to fail to be refuted; one solver and a short budget are enough
+			if si > 0 {
+				break
+			}
+			if t > 3 {
+				t = 3
+			}
+		}
 		if si > 0 && !opt.cross {
 			// later solvers only get a chance when the first could not decide
 			t = opt.timeoutS
